@@ -985,6 +985,16 @@ func (nr *netRun) checkC08(x *xfer) {
 						}
 					}
 					if cause == "" {
+						// F14, seen from the wire: after the limit pause the responder handed out an *accepting restart response
+						// that says "not paused"* - its pause decision was taken on a channel state read before the limit was
+						// reached (the read and the validation are separate steps; a block report slipped in between)
+						for _, w := range b.Wire {
+							if (w.Dir == "send" || (w.Dir == "sent" && w.Carrier == "graphsync")) && !w.Sum.Req && w.Sum.Restart && w.Sum.Accepted && !w.Sum.Paused && w.Sum.TID == x.chid.ID && w.Life == life && w.Step > pausedLB && w.Step < e.Step {
+								cause = "|restart-validated-before-the-limit-was-reached-and-carried-out-after"
+							}
+						}
+					}
+					if cause == "" {
 						// F15: a restart validated while paused at the limit: the new request is opened first and paused
 						// afterwards (receiveRequest: OpenChannel, then PauseChannel); a block that arrives in between is accounted
 						for _, tc := range b.TpCalls {
